@@ -58,6 +58,32 @@ variable {K : Type} [Add K] [Sub K] [Mul K] [NatCast K] [LE K] [DecidableLE K]
 /-- `cKDTree(rows)`: the tree is a snapshot of the rows it was built from. -/
 def cKDTree (rows : List (Point K)) : List (Point K) := rows
 
+/-- The keyword arguments of `cKDTree(rows, …)` and `tree.query_ball_point(c, r, …)` that decide
+*which* search SciPy performs, defaults filled in by the translator from the signatures of the
+installed SciPy (numbers as exact fractions of the source literals). -/
+structure TreeArgs where
+  /-- `cKDTree(…, leafsize=)`: points per leaf (no influence on the answer of an exact search) -/
+  leafsize : Nat
+  /-- `cKDTree(…, boxsize=None)`: no periodic topology inside the tree -/
+  boxsizeNone : Bool
+  /-- `query_ball_point(…, p=)`: the Minkowski norm, `pNum / pDen` -/
+  pNum : Nat
+  pDen : Nat
+  /-- `query_ball_point(…, eps=)`: `epsNum / epsDen`; non-zero = approximate search (branches
+  are accepted or rejected by their bounding boxes within a factor `1 + eps`) -/
+  epsNum : Nat
+  epsDen : Nat
+  deriving DecidableEq, Repr
+
+/-- The arguments for which SciPy documents the ball query as *exactly* the points with
+Euclidean distance `≤ r` in a non-periodic space — the contract `ballQuery` of the model
+(`queryBallPoint`) is assumed for these and only for these. -/
+def TreeArgs.exact (a : TreeArgs) : Prop :=
+  1 ≤ a.leafsize ∧ a.boxsizeNone = true ∧ a.pDen ≠ 0 ∧ a.pNum = 2 * a.pDen ∧
+    a.epsDen ≠ 0 ∧ a.epsNum = 0
+
+instance (a : TreeArgs) : Decidable a.exact := by unfold TreeArgs.exact; infer_instance
+
 /-- `tree.query_ball_point(c, r, p=2.0)` on the attribute `self._kdtree`; `none`: the attribute
 is `None` (AttributeError in Python — outside the modelled fragment). -/
 def queryBallPoint (tree : Option (List (Point K))) (c : Point K) (r : K) : Option (List Nat) :=
